@@ -168,6 +168,8 @@ type SimNode struct {
 	pingDone     []string
 
 	gen         int
+	leaveGate   chan struct{} // harness-side serialisation of Leave calls (see DESIGN: sync.Mutex is not durable blocking)
+	shutGate    chan struct{}
 	staleEvents []evRec
 	shutAt      time.Duration
 	created  bool
@@ -432,6 +434,8 @@ func (c *Cluster) buildConfig(n *SimNode, cp CfgPlan) *Config {
 func (c *Cluster) addNode(name string, ip net.IP, cp CfgPlan) *SimNode {
 	n := &SimNode{sim: c.sim, net: c.net, idx: len(c.nodes), name: name, ip: ip, port: 7946, cfgp: cp, evSeq: &c.evSeq}
 	n.meta = []byte("m0-" + name)
+	n.leaveGate = make(chan struct{}, 1)
+	n.shutGate = make(chan struct{}, 1)
 	c.nodes = append(c.nodes, n)
 	return n
 }
